@@ -190,6 +190,15 @@ def r_own_elem(ctx, prog, codecs):
                         found = (lr, frees)
                 key = '%s:%s[]' % (fam['name'], table)
                 if found is None:
+                    # the sweep may live in a static helper called with (table, first, last)
+                    hs = _helper_sweep(prog, D, dt, L(fld(prog, st, table)))
+                    if hs is not None:
+                        c, h_lo, h_hi, h_pred, h_step, desc = hs
+                        ok = h_lo == lo and h_hi == hi and h_pred == 'ult' and h_step == 1
+                        ctx.instance(R, ok, c, key,
+                                     '%s sweeps %s over "%s" (in a helper); the library owns exactly the slots %s .. %s-1' %
+                                     (fam['release'], table, desc, show(lo), show(hi)))
+                        continue
                     ctx.fail(R, D, key, '%s has no loop freeing the elements of %s' % (fam['release'], table))
                     continue
                 lr, frees = found
@@ -203,6 +212,33 @@ def r_own_elem(ctx, prog, codecs):
             bad = [c for (c, n, t, gi, ci) in frees_in(prog, D) if t[0] in ('load', 'load@') and t[1][0] == 'elem']
             ctx.instance(R, not bad, bad[0] if bad else D, '%s:no-element-free' % fam['name'],
                          '%s frees elements of a symbol table: those buffers belong to the application' % fam['release'])
+
+
+def _helper_sweep(prog, D, dt, table_term):
+    """A call in D of a static helper whose loop frees elem(<pointer parameter>, iv): (call, start, bound, pred, step, text) with
+    the helper's range translated through the call's arguments; None if there is none for this table."""
+    for c in D.calls():
+        g = prog.callee_fn(c)
+        if g is None or not g.internal or g.unit is not D.unit:
+            continue
+        js = [j for j, a0 in enumerate(c.args) if dt.term(a0) == table_term]
+        if not js:
+            continue
+        gt = Terms(g)
+        for lp in g.loops.values():
+            lr = loop_range(g, lp, gt)
+            if lr is None:
+                continue
+            iv = gt.term(_V(lr.iv))
+            for j in js:
+                elem = ('load', ('elem', ('param', j), iv))
+                if any(c2.callee in DEALLOCATORS and gt.term(c2.args[0]) == elem for c2 in calls_in_loop(g, lp)):
+                    def tr(t):
+                        if t[0] == 'param' and t[1] < len(c.args):
+                            return dt.term(c.args[t[1]])
+                        return t
+                    return c, tr(lr.start), tr(lr.bound), lr.pred, lr.step, lr.describe()
+    return None
 
 
 def _norm_phi_null(f, tt, t, depth=0):
@@ -401,6 +437,8 @@ def _swap_pred(p):
 def atom_refuted(atom, K):
     """Is the comparison `atom` (x < y, x <= y) impossible given K?  (no-wrap arithmetic: the quantities are symbol counts
     bounded by the validated limits)"""
+    if atom[0] == 'cmp' and atom[1] in ('ugt', 'uge', 'sgt', 'sge'):
+        atom = ('cmp', _swap_pred(atom[1]), atom[3], atom[2])       # y > x is x < y
     if atom[0] != 'cmp' or atom[1] not in ('ult', 'ule', 'slt', 'sle'):
         return False
     a, ca = _lin(atom[2])
